@@ -45,6 +45,7 @@ Proof.
       change (futs st1) with (futs st) in *. rewrite nth_upd_eq by exact L. reflexivity.
   - left. reflexivity.
   - left. reflexivity.
+  - left. reflexivity.
 Qed.
 
 (* interrupt_on_time, local form: a task marked _must_cancel resumes its innermost await point -- a bare yield or a
@@ -98,7 +99,7 @@ Lemma shield_swallows_then_redelivers : forall st id last m outer,
     delayed st' = Some (nexth st, m) /\
     ready st' = ready st ++ [mkH (nexth st) (HDelayedCancel m) false; mkH (S (nexth st)) HDelayedPop false].
 Proof.
-  intros st id last m outer Hd. unfold shield_resume. cbn [cancel_msg_of].
+  intros st id last m outer Hd. unfold shield_resume, shield_proceed. cbn [cancel_msg_of].
   unfold reschedule_delayed.
   rewrite Hd. cbn. eexists. split; [reflexivity|]. split; [reflexivity|]. rewrite <- app_assoc. reflexivity.
 Qed.
